@@ -237,6 +237,9 @@ def run_fs(desc):
                 hidden_seen = True
                 v = R.path_verdict(pp, r, **kw)
                 out.evaluations += 1
+                if v == R.MUSTNOT and api == 2 and os.path.isdir(os.path.join(root, r)):
+                    # pathlib drops the trailing separator that glob() puts on a directory matched through `x/**`
+                    v = R.path_verdict(pp, r + '/', **kw)
                 if v == R.MUSTNOT:
                     from .. import findings as K
                     ids = K.path_classes(pp, r, kw, True, v, text)
